@@ -190,8 +190,11 @@ def write_evidence(prop, tier, level, coverage, assumptions, wall, violations, e
               assumptions=assumptions, wall_s=round(wall, 2), violations=violations)
     if extra:
         ev.update(extra)
-    os.makedirs(os.path.join(VERIF, "evidence"), exist_ok=True)
-    p = os.path.join(VERIF, "evidence", prop + ".json")
+    # (runs against a scratch worktree - VERIF_REPO - write their evidence elsewhere: evidence/ describes /repo)
+    evdir = os.environ.get("VERIF_EVIDENCE_DIR") or (os.path.join(VERIF, "evidence") if "VERIF_REPO" not in os.environ
+                                                       else os.path.join(VERIF, ".scratch", "evidence-other-tree"))
+    os.makedirs(evdir, exist_ok=True)
+    p = os.path.join(evdir, prop + ".json")
     with open(p + ".tmp", "w") as f:
         json.dump(ev, f, indent=1, sort_keys=True, default=str)
     os.replace(p + ".tmp", p)
